@@ -74,6 +74,10 @@ fn tr_upper(s: &str) -> Cow<str> {
     s.to_ascii_uppercase().into()
 }
 
+fn tr_bracket(s: &str) -> Cow<str> {
+    format!("[{}]", s).into()
+}
+
 fn tr_pseudo(s: &str) -> Cow<str> {
     fluent_pseudo::transform(s, false, true)
 }
@@ -320,6 +324,7 @@ fn configure<M: MemoizerKind>(
     match kv(cfg, "tr") {
         "upper" => bundle.set_transform(Some(tr_upper)),
         "pseudo" => bundle.set_transform(Some(tr_pseudo)),
+        "bracket" => bundle.set_transform(Some(tr_bracket)),
         _ => bundle.set_transform(None),
     }
     match kv(cfg, "fm") {
